@@ -43,6 +43,8 @@ type Prog struct {
 	cg       *callgraph.Graph
 	fnByName map[string]*ssa.Function
 	astFn    map[*types.Func]*ast.FuncDecl
+	sites    map[*ssa.Function][]ssa.CallInstruction
+	made     map[string]bool
 }
 
 // Load loads every package of the module in dir under cfg and builds SSA.
